@@ -62,8 +62,10 @@ claim("C01",
       "(3) numeric and alphanumeric modes: every AppendBits call of appendNumericBytes/appendAlphanumericBytes carries exactly the 10/7/4-bit digit groups and 11/6-bit code pairs of the standard, the encoder's code table and the decoder's character list are inverse (all 96/45 entries), and the packing arithmetic is inverted by the decoder's / and % (lemmas); "
       "(4) Kanji mode: appendKanjiBytes emits kanjiEnc(code) in 13 bits for codes in the two Shift JIS ranges only, decodeKanjiSegment hands the Shift JIS decoder 2*count bytes whose lead bytes lie in 0x81..0x9F / 0xE0..0xEB with trail >= 0x40 (the image of the standard's inverse map), and kanjiDec(kanjiEnc(c)) == c for every double-byte code (lemma); "
       "(5) character count: in Encoder_encode the count written by appendLengthInfo equals the payload that follows (numericBits(n), alnumBits(n), 8*n bits) — proved as a call-site assertion over the proved payload sizes of appendBytes; "
-      "(6) version choice (C13) and format/version word tolerance (C05). "
-      "Not decided: decodeNumericSegment/decodeAlphanumericSegment/decodeByteSegment against the stream, terminateBits, interleaveWithECBytes <-> DataBlock_GetDataBlocks, embedDataBits <-> ReadCodewords, extractPureBits/moduleSize, ECI handling, the end-to-end round trip.",
+      "(6) terminateBits (thorough tier): at most four terminator zeros, zero padding to the byte boundary, then the pad codewords 11101100/00010001 alternately up to exactly 8*numDataBytes bits, the data prefix unchanged, an error exactly when the data does not fit; "
+      "(7) generateECBytes hands the QR-field Reed-Solomon encoder exactly the block's data bytes and returns the parity the encoder wrote behind them (composed with the C04 Encode contract: data unchanged, parity symbols are field elements); "
+      "(8) version choice (C13), format/version bits of the encoder (C07) and format/version word tolerance of the decoder (C05). "
+      "Not decided: decodeNumericSegment/decodeAlphanumericSegment/decodeByteSegment against the stream, interleaveWithECBytes <-> DataBlock_GetDataBlocks, embedDataBits <-> ReadCodewords, extractPureBits/moduleSize, ECI handling, the end-to-end round trip.",
       "Encoder_encode is checked for its call-site assertion only (its postconditions stay a trusted summary); x/text encoders are stubs (arbitrary bytes, length <= 4*len+64); hint maps unmodelled; appendKanjiBytes/decodeKanjiSegment in 64-bit vectors, the other segment functions over mathematical integers.")
 claim("C15",
       "Narrow claim on the ECI and Kanji plumbing: parseECIValue is proved to decode the one-, two- and three-byte designator forms of ISO/IEC 18004 8.4.1.1, to consume exactly 8/16/24 bits, to return a value in 0..2^21-1, "
